@@ -47,6 +47,33 @@ class OtherException(Exception):
     """Representative of 'any Exception subclass unrelated to the classes the code mentions'."""
 
 
+def _exc_fields():
+    from . import types as T
+
+    se = dict(schema=T.Ref(None, name=T.Opt(T.Any)), data=T.Any, failure_cases=T.Any, check=T.Any, check_index=T.Any, check_output=T.Any,
+              parser=T.Any, parser_index=T.Any, parser_output=T.Any, reason_code=T.Any, column_name=T.Any)
+    return {"SchemaError": se,
+            "SchemaErrors": dict(schema=T.Any, schema_errors=T.ListOf(T.Lazy(lambda n: cur().ghost["interp"].make_exc(_pandera_errors().SchemaError))), data=T.Any,
+                                 failure_cases=T.Any, message=T.Any, error_counts=T.Any),
+            "ParserError": dict(failure_cases=T.Any, parser_output=T.Any)}
+
+
+def _pandera_errors():
+    import pandera.errors as E
+
+    return E
+
+
+class _LazyExcFields(dict):
+    def get(self, k, default=None):
+        if not self:
+            self.update(_exc_fields())
+        return dict.get(self, k, default)
+
+
+EXC_FIELD_TYPES = _LazyExcFields()
+
+
 class OpaqueStar:
     """unknown *args / **kwargs that can only be forwarded"""
 
@@ -220,6 +247,11 @@ class Interp:
         o = Obj(cls, cls.__name__, pre=False)
         o.attrs["args"] = tuple(args)
         o.attrs.update(fields)
+        ft = EXC_FIELD_TYPES.get(cls.__name__)
+        if ft and not args:
+            # an exception raised by a callee under contract: its documented fields exist, with arbitrary values
+            o.field_types = dict(ft)
+            o.lazy = True
         return o
 
     def raise_py(self, cls, *args):
@@ -268,6 +300,8 @@ class Interp:
                 clo = LOADER.closure_of(fn)
                 self.inlined[clo.qualname] = LOADER.hashes[clo.qualname]
                 return self.call_closure(clo, list(args), kwargs)
+        if callable(fn) and getattr(fn, "__pyvc_model__", False):
+            return fn(*args, **kwargs)
         # all-concrete call to a library / builtin function: run it
         if is_concrete(list(args)) and is_concrete(kwargs) and callable(fn):
             mod = getattr(fn, "__module__", None) or ""
@@ -526,6 +560,8 @@ class Interp:
                         return a.__func__
                     if isinstance(a, property):
                         return self.call(a.fget, [v.obj])
+                    if type(a).__name__ == "wrapper_descriptor" and name == "__init__":
+                        return BuiltinInit(v.obj)
                     return a
             self.raise_py(AttributeError, name)
         if v is None:
@@ -586,7 +622,7 @@ class Interp:
                 pass
             else:
                 return cls_attr
-        if o.pre:
+        if o.pre or (getattr(o, "lazy", False) and name in o.field_types):
             v = heap.materialise(o, name)
             if v is not MISSING:
                 return v
@@ -600,7 +636,7 @@ class Interp:
                 return False
             if v.cls is not None and _find_in_mro(v.cls, name) is not None:
                 return True
-            if v.pre and name in v.field_types:
+            if (v.pre or getattr(v, "lazy", False)) and name in v.field_types:
                 return True
             return False
         if isinstance(v, Sym) or getattr(v, "__pyvc_symbolic__", False):
@@ -1599,6 +1635,21 @@ class OpaqueAttr:
         self.__name__ = name
         self.__qualname__ = f"<opaque>.{name}"
         self.__module__ = "opaque"
+
+
+class BuiltinInit:
+    """object.__init__ / BaseException.__init__ reached through super(): records `args`"""
+
+    __pyvc_model__ = True
+
+    def __init__(self, obj):
+        self.obj = obj
+        self.__name__ = "__init__"
+
+    def __call__(self, *args, **kw):
+        if isinstance(self.obj, Obj) and self.obj.cls is not None and issubclass(self.obj.cls, BaseException):
+            self.obj.attrs["args"] = tuple(args)
+        return None
 
 
 class ObjDictView:
